@@ -63,14 +63,22 @@ func cmdSignalScript(args []string) error {
 	}
 	for _, how := range []string{"kill", "stop", "error"} {
 		for _, racers := range []int{0, 0, 2, 8} {
-			executed++
-			panics, closed := scopex.RunChildOfDone(how, racers)
-			op := fmt.Sprintf("child of a parent ended by %s, %d racing creators", how, racers)
-			if len(panics) > 0 {
-				add("panic:child-of-done", op, fmt.Sprint(panics))
+			// racing creators: many repetitions, the parent's end placed at 0 .. 300 microseconds into their activity
+			reps := 1
+			if racers > 0 {
+				reps = 80
 			}
-			if !closed {
-				add("hang:parent-close", op, "closing the parent did not return within 10 s")
+			for rep := 0; rep < reps; rep++ {
+				executed++
+				panics, closed := scopex.RunChildOfDone(how, racers, time.Duration(rep*4)*time.Microsecond)
+				op := fmt.Sprintf("child of a parent ended by %s, %d racing creators (repetition %d)", how, racers, rep)
+				if len(panics) > 0 {
+					add("panic:child-of-done", op, fmt.Sprint(panics))
+				}
+				if !closed {
+					add("hang:parent-close", op, "closing the parent did not return within 10 s")
+					break
+				}
 			}
 		}
 	}
